@@ -143,6 +143,20 @@ def check(run):
         t.cleanup()
 
 
+def canary_allowed(c):
+    """Ingest::ingest on a virtual top-level path: the root is the directory of that path if it exists
+    (e.g. the current directory for `virtual.etk`, `/` for `/virtual.etk`); the secret files of the layout
+    are legitimately readable when they lie under it."""
+    if "virtual" not in c:
+        return False
+    d = os.path.dirname(os.path.join(c["cwd"], c["main"])) or c["cwd"]
+    if not os.path.isdir(d):
+        return False
+    root = os.path.realpath(d)
+    secret_dirs = [os.path.realpath(os.path.join(c["top"], x)) for x in ("outside", "proj2", "outside/deep")]
+    return all(sd == root or sd.startswith(root.rstrip("/") + "/") for sd in secret_dirs)
+
+
 def _check(run, rng, proof_ok, t):
     cases = []
     nrand = 900 if run.tier == "thorough" else 260
@@ -243,6 +257,11 @@ def _check(run, rng, proof_ok, t):
         for vpath in ["", "/", "nonexistent_dir/main.etk", "proj/top.etk/virtual.etk", "dangling/main.etk", "virtual.etk", "proj/virtual.etk", "/virtual.etk"]:
             top, proj, canary, inner = fresh()
             add(top, vpath, top, "virtual-main", canary, inner, asm_at_prog=[("op", "pc", None), (kind, f"proj/sub/inner.{x}"), (kind, f"sub/inner.{x}"), (kind, f"outside/secret.{x}")])
+            # absolute arguments: with no usable root nothing may be read at all
+            top, proj, canary, inner = fresh()
+            add(top, vpath, top, "virtual-main-abs", canary, inner, asm_at_prog=[("op", "pc", None), (kind, f"{top}/outside/secret.{x}")])
+            top, proj, canary, inner = fresh()
+            add(top, vpath, top, "virtual-main-abs", canary, inner, asm_at_prog=[(kind, f"{top}/proj2/secret.{x}"), ("op", "pc", None)])
     top, proj, canary, inner = fresh()
     add(top, "", top, "virtual-main", canary, inner, asm_at_prog=[("op", "pc", None)])
 
@@ -261,7 +280,7 @@ def _check(run, rng, proof_ok, t):
         problems = []
         if impl.startswith("panic") or impl.startswith("crash"):
             problems.append("implementation crashed: " + impl[:200])
-        if c["canary"].hex() in impl:
+        if c["canary"].hex() in impl and not canary_allowed(c):
             problems.append("canary bytes of a file outside the root appear in the output")
         if not impl.startswith("ok:") and not impl.endswith(" out=-"):
             problems.append("output was written although assembly failed: " + impl[:200])
